@@ -205,6 +205,7 @@ enum TokenFault {
     TF_TRUNCATE,       // cut the text after the token
     TF_SIDE_EFFECT,    // append an assignment / increment (guard, invariant, sync, probability)
     TF_CHAN_ARITH,     // a channel used arithmetically
+    TF_BAD_TERNARY,    // a conditional whose branches are a channel and an integer (the error is rooted at the ?: node)
     TF_COUNT
 };
 const char* token_fault_name(int);
